@@ -76,6 +76,15 @@ pub fn programs(ctx: &Ctx, salt: u64) -> Vec<Program> {
                 v.push(single_file(layers, 1, Sz::new(1, 1, 5), DataKind::Random, ctx.seed ^ 4));
             }
         }
+        // steered shapes: the first compressed block ends right after an encryption chunk edge /
+        // an edge of the repair reader's input window, its last byte not needed by the decoder
+        use crate::shapes::{block_end, Grid};
+        let wanted: &[(u8, Grid, i64)] = if ctx.quick() { &[(3, Grid::Chunk, 1), (2, Grid::Window, 1)] } else { &[(3, Grid::Chunk, 1), (2, Grid::Window, 1), (3, Grid::Window, 1), (3, Grid::Chunk, 0), (2, Grid::Window, 0)] };
+        for (layers, grid, r) in wanted {
+            if let Some(p) = block_end(&k, ctx.seed ^ salt, *layers, 1, *grid, *r, true, false) {
+                v.push(p);
+            }
+        }
     }
     v
 }
